@@ -243,7 +243,7 @@ class P_pdb(StructureParser):
                 else:
                     emsg = "%d: invalid record name '%r'" % (p_nl, record)
                     raise StructureFormatError(emsg)
-        except (ValueError, IndexError, ZeroDivisionError, LatticeError):
+        except (ValueError, IndexError, AttributeError, ZeroDivisionError, LatticeError):
             emsg = "%d: invalid PDB record" % p_nl
             exc_type, exc_value, exc_traceback = sys.exc_info()
             e = StructureFormatError(emsg)
